@@ -226,6 +226,39 @@ fn c20_weak_live() {
 }
 
 // ---------------------------------------------------------------------------------------------
+// The same while OTHER emissions are in flight: each of them holds an upgraded strong reference for the duration of its call
+// (k = 1 or 2 parked references). "While the handle is alive every emission reaches the wrapped recorder" does not depend on how
+// many emitters are inside the recorder at the moment.
+pub fn c20_weak_live_busy_body(op: u8, which: bool, usel: u8, v: u64, two: bool) {
+    let op = op_of(op);
+    let (wrapped, handle) = RecoverableRecorder::new(Rec { id: 7 }).build();
+    OWNER.store(&handle.handle as *const Arc<Rec> as usize, O::SeqCst);
+    let p1 = handle.handle.clone();
+    let p2 = if two { Some(handle.handle.clone()) } else { None };
+    let k: usize = if two { 2 } else { 1 };
+    emit(&wrapped, op, which, usel, v);
+    assert!(CALLS.load(O::SeqCst) == 1, "the emission enters the wrapped recorder whatever else is in flight");
+    assert_last_call_is(op, which, usel, v);
+    assert!(STRONG_IN_CALL.load(O::SeqCst) == 2 + k);
+    drop(p1);
+    drop(p2);
+    assert!(Arc::strong_count(&handle.handle) == 1 && Arc::weak_count(&handle.handle) == 1);
+    assert!(DROPS.load(O::SeqCst) == 0 && LATE_CALLS.load(O::SeqCst) == 0);
+    kani::cover!(two && op == 2);
+    OWNER.store(0, O::SeqCst);
+    let rec = handle.into_inner();
+    assert!(rec.id == 7 && DROPS.load(O::SeqCst) == 0);
+    drop(rec);
+    assert!(DROPS.load(O::SeqCst) == 1 && LATE_CALLS.load(O::SeqCst) == 0);
+}
+#[cfg(kani)]
+#[kani::proof]
+#[kani::unwind(3)]
+fn c20_weak_live_busy() {
+    c20_weak_live_busy_body(kani::any(), kani::any(), kani::any(), kani::any(), kani::any());
+}
+
+// ---------------------------------------------------------------------------------------------
 // into_inner with no emission in flight: returns after the first successful try_unwrap with the
 // ORIGINAL recorder (same id, same value), not finalised (drop counter 0); 1 after the caller drops it.
 // Afterwards (upgrade() is None) every one of the six operations through the wrapper is inert: no call
